@@ -67,6 +67,11 @@ class Samplers(Part):
         for n in ns + [0]:
             for d in (1, 3, 6):
                 cases.append({"kind": "random", "n": n, "d": d, "cseed": rng.randrange(1 << 30)})
+        # heterogeneous declarations, always present (not left to the draw above): which parameters declare a precision is the pattern,
+        # the ones that do not have narrow boxes no foreign grid fits into
+        for pattern in ("PN", "NP", "PNN", "NPN", "PNP", "PPN", "NNP", "PNNPNN"):
+            for n in (1, 5) if ctx.quick else (1, 2, 5, 17, 100):
+                cases.append({"kind": "random", "n": n, "d": len(pattern), "mix": pattern, "cseed": rng.randrange(1 << 30)})
         return cases
 
     def run_case(self, ctx, case):
@@ -79,7 +84,16 @@ class Samplers(Part):
         d = case["d"]
         params = make_params(rng, d)
         kind = case["kind"]
-        if kind == "random" and case["cseed"] % 2:
+        if case.get("mix"):
+            withp = [([0.0, 1.0], 0.1), ([-3.0, -1.0], 0.5), ([2.0, 1024.0], 1.0), ([-1e6, 1e6], 10.0), ([0.0, 10.0], 1.0)]
+            without = [[0.2, 0.4], [-3.5, -3.1], [0.1, 0.3], [1e-9, 2e-9], [100.0, 100.5], [-0.7, 0.1]]
+            for q, c in zip(params, case["mix"]):
+                if c == "P":
+                    q['bounds'], q['precision'] = (lambda t: (list(t[0]), t[1]))(rng.choice(withp))
+                else:
+                    q['bounds'] = list(rng.choice(without))
+                    q.pop('precision', None)
+        elif kind == "random" and case["cseed"] % 2:
             # some parameters declare a rounding precision (one their bounds are multiples of, so rounding cannot leave the box),
             # the others do not: each parameter is generated with its own declaration
             table = {(0.0, 1.0): 0.1, (-3.0, -1.0): 0.5, (2.0, 1024.0): 1.0, (-1e6, 1e6): 10.0, (100.0, 100.5): 0.5, (5.0, 5.5): 0.25}
